@@ -1,6 +1,6 @@
 (* C03 — what the invariant gives to a reader of the files, and the recovery of OpenWith on any
    crash image of a state satisfying it. *)
-From V Require Import Crash.Storage Crash.StorageProofs Crash.Protocol Crash.RecordProofs Crash.AhtProofs Crash.InvProofs.
+From V Require Import Crash.Storage Crash.StorageProofs Crash.Protocol Crash.RecordProofs Crash.AhtProofs Crash.InvProofs Crash.ValuesProofs.
 From Coq Require Import ZifyN ZifyNat ZifyBool Lia.
 
 Section RC.
@@ -168,33 +168,34 @@ Qed.
 Lemma slice_add c o a b : slice c o (a + b) = slice c o a ++ slice c (o + a) b.
 Proof. unfold slice. rewrite take_add, drop_drop. reflexivity. Qed.
 
-Lemma reload_sound fuel tx pos pid pa pb pos' pa' :
-  reload H fuel tx pos pid pa = (pb, pos', pa') -> pos <= len tx ->
+Lemma reload_sound fuel tx vl pos pid pa pb pos' pa' :
+  reload H fuel tx vl pos pid pa = (pb, pos', pa') -> pos <= len tx ->
   exists rs, chain pid pa pos rs /\ pb = map pb_of rs /\ pos' = pos + len (raws rs) /\ pos' <= len tx /\
-             slice tx pos (len (raws rs)) = raws rs /\ pa' = last_alh pa rs.
+             slice tx pos (len (raws rs)) = raws rs /\ pa' = last_alh pa rs /\
+             Forall (fun r => values_readable_img H vl (t_body r) = true) rs.
 Proof.
   revert pos pid pa pb pos' pa'; induction fuel as [|fuel IH]; intros pos pid pa pb pos' pa' E Hpos.
   - cbn [reload] in E. assert (pb = [] /\ pos' = pos /\ pa' = pa) as (-> & -> & ->) by (split; [|split]; congruence).
-    exists []. cbn [RecordProofs.chain map last_alh]. unfold raws; cbn [map concat]. unfold slice. rewrite take_0, len_nil. repeat split; auto; try lia.
+    exists []. cbn [RecordProofs.chain map last_alh]. unfold raws; cbn [map concat]. unfold slice. rewrite take_0, len_nil. repeat split; auto; try lia; constructor.
   - cbn [reload] in E.
     destruct (parse_rec H (drop pos tx)) as [[[[id prev] body] n]|] eqn:P.
     2:{ assert (pb = [] /\ pos' = pos /\ pa' = pa) as (-> & -> & ->) by (split; [|split]; congruence).
-        exists []. cbn [RecordProofs.chain map last_alh]. unfold raws; cbn [map concat]. unfold slice. rewrite take_0, len_nil. repeat split; auto; try lia. }
-    destruct ((id =? pid + 1) && list_eqb_N prev pa && (pos + n <? 2 ^ 64)) eqn:G.
+        exists []. cbn [RecordProofs.chain map last_alh]. unfold raws; cbn [map concat]. unfold slice. rewrite take_0, len_nil. repeat split; auto; try lia; constructor. }
+    destruct ((id =? pid + 1) && list_eqb_N prev pa && (pos + n <? 2 ^ 64) && values_readable_img H vl body) eqn:G.
     2:{ assert (pb = [] /\ pos' = pos /\ pa' = pa) as (-> & -> & ->) by (split; [|split]; congruence).
-        exists []. cbn [RecordProofs.chain map last_alh]. unfold raws; cbn [map concat]. unfold slice. rewrite take_0, len_nil. repeat split; auto; try lia. }
-    apply andb_prop in G as [G G3]. apply andb_prop in G as [G1 G2].
+        exists []. cbn [RecordProofs.chain map last_alh]. unfold raws; cbn [map concat]. unfold slice. rewrite take_0, len_nil. repeat split; auto; try lia; constructor. }
+    apply andb_prop in G as [G G4]. apply andb_prop in G as [G G3]. apply andb_prop in G as [G1 G2].
     apply N.eqb_eq in G1. apply (list_eqb_N_eq) in G2. apply N.ltb_lt in G3.
-    destruct (reload H fuel tx (pos + n) id (alh_of H id prev body)) as [[l pos2] pa2] eqn:R.
+    destruct (reload H fuel tx vl (pos + n) id (alh_of H id prev body)) as [[l pos2] pa2] eqn:R.
     assert (pb = (id, alh_of H id prev body, pos, n) :: l /\ pos' = pos2 /\ pa' = pa2) as (-> & -> & ->)
       by (split; [|split]; congruence).
     destruct (parse_rec_inv H H_len _ _ _ _ _ P) as (Hn & Hnb & Hn32 & Hid & _ & _ & Hlp & _ & _ & _).
     rewrite len_drop in Hnb.
-    destruct (IH _ _ _ _ _ _ R) as (rs & Hc & Hl & Hp2 & Hle & Hs & Hpa); [lia|].
+    destruct (IH _ _ _ _ _ _ R) as (rs & Hc & Hl & Hp2 & Hle & Hs & Hpa & Hva); [lia|].
     set (r := mkT (take n (drop pos tx)) id prev body (alh_of H id prev body) pos).
     assert (Lr: len (t_raw r) = n) by (unfold r; cbn [t_raw]; rewrite len_take, len_drop; lia).
     exists (r :: rs). cbn [RecordProofs.chain map last_alh]. rewrite raws_cons, len_app, Lr.
-    split; [|split; [|split; [|split; [|split]]]].
+    split; [|split; [|split; [|split; [|split; [|split]]]]].
     + split; [|repeat split; auto; try lia].
       unfold rec_ok. rewrite Lr. unfold r; cbn [t_raw t_id t_prev t_body t_alh t_off].
       split; [|repeat split; auto; lia].
@@ -204,6 +205,7 @@ Proof.
     + lia.
     + rewrite slice_add. f_equal. exact Hs.
     + unfold r; cbn [t_alh]. exact Hpa.
+    + constructor; [unfold r; cbn [t_body]; exact G4|exact Hva].
 Qed.
 
 (* ---- re-linking the hash tree ---- *)
@@ -250,9 +252,78 @@ Qed.
 Lemma Forall2_length' {A B} (R : A -> B -> Prop) l1 l2 : Forall2 R l1 l2 -> length l1 = length l2.
 Proof. induction 1; simpl; auto. Qed.
 
+(* ---- values: from a state to a crash image, and from the reload check ---- *)
+Lemma Forall2_nth {A B} (R : A -> B -> Prop) l l' i a :
+  Forall2 R l l' -> nth_error l i = Some a -> exists b, nth_error l' i = Some b /\ R a b.
+Proof.
+  intros F. revert i. induction F as [|x y l l' Hxy F IH]; intros [|i] E; cbn in *; try discriminate.
+  - exists y. split; [reflexivity|]. congruence.
+  - apply IH; auto.
+Qed.
+
+Lemma nth_error_firstn_lt {A} (a b : nat) (h : list A) : (b < a)%nat -> nth_error (firstn a h) b = nth_error h b.
+Proof.
+  revert b h; induction a as [|a IH]; intros b h Hlt; [lia|].
+  destruct h as [|x h]; [destruct b; reflexivity|].
+  destruct b as [|b]; [reflexivity|]. cbn [firstn nth_error]. apply IH. lia.
+Qed.
+
+Lemma VF_open b : VF (f_open b).
+Proof. unfold VF, f_open, os_view. cbn. repeat split; try lia. constructor. Qed.
+
+Lemma body_vref_len body v vo vn hv : body_vref body = Some (v, vo, vn, hv) -> len hv = 32.
+Proof.
+  unfold body_vref. destruct (N.ltb_spec (len body) 45); [discriminate|]. intros E.
+  assert (hv = take 32 (drop 13 body)) by congruence. subst hv. rewrite len_take, len_drop. lia.
+Qed.
+
+Lemma nth_map_open l i img : nth_error l i = Some img -> nth_error (map f_open l) i = Some (f_open img).
+Proof. intros E. rewrite nth_error_map, E. reflexivity. Qed.
+
+(* a durable extent of s is readable in every crash image of s *)
+Lemma val_dur_image s s' im x :
+  Forall VF (vls s) -> Forall2 crash_image (vls s) (i_vls im) -> vls s' = map f_open (i_vls im) ->
+  val_dur H s x -> val_dur H s' x /\ (forall hvlen : len (snd x) = 32, val_view H s' x).
+Proof.
+  intros Fv Cv Ev. destruct x as [[[v vo] vn] hv]. intros [Z|(f & E1 & L & Hh)].
+  - split; [left; auto|]. intros Lh. split; [exact Lh|left; auto].
+  - destruct (Forall2_nth _ _ _ _ _ Cv E1) as (img & Ei & Ci).
+    pose proof (Forall_nth _ _ _ _ Fv E1) as (Va & Vb & Vc).
+    destruct (crash_image_prefix (len (durable f)) f img Vb ltac:(lia) Ci) as (P1 & P2).
+    rewrite take_all in P1.
+    assert (Sl: slice img vo vn = slice (durable f) vo vn).
+    { apply (slice_eq_of_take _ _ (len (durable f))); [lia|]. rewrite P1. symmetry. apply take_all. }
+    pose proof (nth_map_open _ _ _ Ei) as En.
+    split.
+    + right. exists (f_open img). rewrite Ev. split; [exact En|]. cbn [f_open durable].
+      split; [lia|]. rewrite Sl. exact Hh.
+    + intros Lh. split; [exact Lh|]. right. exists (f_open img). rewrite Ev. split; [exact En|].
+      rewrite lview_open. unfold f_offset. cbn [f_open bufoff buf]. rewrite len_nil.
+      split; [lia|]. rewrite Sl. exact Hh.
+Qed.
+
+(* what the reload check establishes *)
+Lemma val_of_reload s' im body :
+  vls s' = map f_open (i_vls im) -> values_readable_img H (i_vls im) body = true ->
+  exists x, body_vref body = Some x /\ val_view H s' x /\ val_dur H s' x.
+Proof.
+  intros Ev R. unfold values_readable_img in R. destruct (body_vref body) as [x|] eqn:B; [|discriminate].
+  exists x. split; [reflexivity|]. destruct x as [[[v vo] vn] hv].
+  pose proof (body_vref_len _ _ _ _ _ B) as Lh. unfold vref_readable in R.
+  destruct (N.eqb_spec vn 0) as [Z|NZ]; cbn [orb] in R.
+  - split; [split; [exact Lh|left; exact Z]|left; exact Z].
+  - destruct (nth_error (i_vls im) (N.to_nat v)) as [img|] eqn:Ei; [|discriminate].
+    apply andb_prop in R as [R1 R2]. apply N.leb_le in R1. apply (list_eqb_N_eq) in R2.
+    pose proof (nth_map_open _ _ _ Ei) as En.
+    split.
+    + split; [exact Lh|]. right. exists (f_open img). rewrite Ev. split; [exact En|].
+      rewrite lview_open. unfold f_offset. cbn [f_open bufoff buf]. rewrite len_nil. split; [lia|exact R2].
+    + right. exists (f_open img). rewrite Ev. split; [exact En|]. cbn [f_open durable]. split; [lia|exact R2].
+Qed.
+
 (* ---- recovery on a crash image of a state satisfying the invariant ---- *)
 Lemma recover_ok nv s h d im upto :
-  Inv nv s h d -> crash s im ->
+  Inv nv s h d -> VInv H s h d -> crash s im ->
   exists s' c' rs,
     recover_upto H upto (s_cfg s) im = Ok s' /\
     committed s <= c' /\ c' <= d /\ committed s' = c' /\ acked s' = c' /\
@@ -262,9 +333,10 @@ Lemma recover_ok nv s h d im upto :
     durable (cml s') = i_cml im /\ pending (cml s') = [] /\ buf (cml s') = [] /\
     take (44 * c') (i_cml im) = entries (firstn (N.to_nat c') h) /\
     take (dts h d) (i_txl im) = raws (firstn (N.to_nat d) h) /\ dts h d <= len (i_txl im) /\
-    ((N.to_nat (precommitted s') <= upto)%nat -> asize s' = precommitted s').
+    ((N.to_nat (precommitted s') <= upto)%nat -> asize s' = precommitted s') /\
+    VInv H s' (firstn (N.to_nat c') h ++ rs) (c' + N.of_nat (length rs)).
 Proof.
-  intros I (Ctx & Ccm & Cvl & Cad & Cac).
+  intros I VI (Ctx & Ccm & Cvl & Cad & Cac).
   destruct (cm_image _ _ _ _ _ I Ccm) as (c' & Hc1 & Hc2 & Hc3 & Hc4 & Hc5).
   pose proof I as I0.
   destruct I as [Icfg Inv_nv Ichain Iplen Icd Iack Ipbuf Ipalh Ipts Itwf Itdur Itview Icwf Icdur Icph Iaht].
@@ -312,8 +384,8 @@ Proof.
         symmetry. apply last_alh_firstn_S. exact R1.
     - assert (c' = 0) by lia. subst c'. unfold ca, ctls, cn. cbn. reflexivity. }
   (* reload *)
-  destruct (reload H (S (length tx)) tx ctls c' ca) as [[pb ptls] pa] eqn:Rl.
-  destruct (reload_sound _ _ _ _ _ _ _ _ Rl) as (rs & Rc & Rpb & Rpos & Rle & Rsl & Rpa); [lia|].
+  destruct (reload H (S (length tx)) tx (i_vls im) ctls c' ca) as [[pb ptls] pa] eqn:Rl.
+  destruct (reload_sound _ _ _ _ _ _ _ _ _ Rl) as (rs & Rc & Rpb & Rpos & Rle & Rsl & Rpa & Rva); [lia|].
   set (h' := firstn cn h ++ rs).
   set (p' := c' + N.of_nat (length rs)).
   assert (Lfn: length (firstn cn h) = cn) by (apply firstn_length_le; auto).
@@ -343,13 +415,13 @@ Proof.
     destruct (N.ltb_spec (len (i_ahd im)) (32 * asz)).
     - unfold asz in *. rewrite Eac in *. lia.
     - repeat split; auto; try lia; try apply wf_open; try (unfold asz; lia). }
-  assert (Ha1: exists a1, (if p' <? asz then aht_reset a0 p' else Ok a0) = Ok a1 /\
+  assert (Ha1: exists a1, (if c' <? asz then aht_reset a0 c' else Ok a0) = Ok a1 /\
                           AInv (c_thld (s_cfg s)) a1 /\ a_size a1 <= p').
-  { destruct (N.ltb_spec p' asz).
-    - assert (Q: p' <= a_size a0) by (unfold a0; cbn [a_size]; lia).
-      destruct (aht_reset_ok _ a0 p' IA0 Q Hthld) as (a1 & E1 & I1 & S1 & _).
-      exists a1. split; [exact E1|]. split; [exact I1|lia].
-    - exists a0. split; [reflexivity|]. split; [exact IA0|]. unfold a0; cbn [a_size]. lia. }
+  { destruct (N.ltb_spec c' asz).
+    - assert (Q: c' <= a_size a0) by (unfold a0; cbn [a_size]; lia).
+      destruct (aht_reset_ok _ a0 c' IA0 Q Hthld) as (a1 & E1 & I1 & S1 & _).
+      exists a1. split; [exact E1|]. split; [exact I1|unfold p'; lia].
+    - exists a0. split; [reflexivity|]. split; [exact IA0|]. unfold a0, p'; cbn [a_size]. lia. }
   destruct Ha1 as (a1 & Ea1 & IA1 & Sa1).
   set (n := Nat.min upto (N.to_nat (p' - a_size a1))).
   destruct (relink_ok n (c_thld (s_cfg s)) tx cm c' pb a1 IA1) as (a2 & Ea2 & IA2 & Sa2 & _).
@@ -365,11 +437,29 @@ Proof.
       rewrite Rpb. rewrite nth_error_map, En. cbn [option_map pb_of].
       eexists. split; [reflexivity|].
       destruct (chain_nth H H_len _ _ _ _ _ _ Rc En) as (Hr & _). apply (rec_ok_alh_len H H_len); auto. }
+  assert (VIgoal: forall s', vls s' = map f_open (i_vls im) -> inflight s' = [] -> VInv H s' h' p').
+  { intros s' Ev Ei. destruct VI as [Fv Iv Hv].
+    constructor.
+    - rewrite Ev. generalize (i_vls im) as l. intros l. induction l; cbn; constructor; auto. apply VF_open.
+    - rewrite Ei. constructor.
+    - intros i r E.
+      destruct (Nat.lt_ge_cases i cn) as [Hlt|Hge].
+      + unfold h' in E. rewrite nth_error_app1 in E by lia.
+        assert (E0: nth_error h i = Some r) by (rewrite <- E; symmetry; apply nth_error_firstn_lt; exact Hlt).
+        destruct (Hv i r E0) as (x & B & Vx & D).
+        assert (Dx: val_dur H s x) by (apply D; left; lia).
+        destruct (val_dur_image s s' im x Fv Cvl Ev Dx) as (D' & V').
+        exists x. split; [exact B|]. split; [|intros _; exact D'].
+        apply V'. destruct x as [[[v vo] vn] hv]. destruct Vx as (Lh & _). exact Lh.
+      + unfold h' in E. rewrite nth_error_app2 in E by lia. rewrite Lfn in E.
+        pose proof (Forall_nth _ _ _ _ Rva E) as Rr. cbn beta in Rr.
+        destruct (val_of_reload s' im (t_body r) Ev Rr) as (x & B & Vx & Dx).
+        exists x. split; [exact B|]. split; [exact Vx|intros _; exact Dx]. }
   (* assemble *)
   unfold recover_upto, recover_logs. rewrite Hpre. fold tx cm. rewrite Hcsz, Cst. cbn [bind]. rewrite Rl. cbn [bind].
   fold ac asz. rewrite Hchk. fold a0.
   assert (Epb: c' + N.of_nat (length pb) = p') by (unfold p'; rewrite Rpb, map_length; reflexivity).
-  rewrite Epb, Ea1. cbn [bind]. fold n. rewrite Ea2. cbn [bind].
+  rewrite Ea1. cbn [bind]. rewrite Epb. fold n. rewrite Ea2. cbn [bind].
   destruct (open_trim_spec cm 44 ltac:(lia)) as (Q1 & Q2 & Q3 & Q4 & Q5).
   eexists. exists c', rs. split; [reflexivity|].
   cbn [committed acked phase_ s_cfg txl vls cml asize].
@@ -377,7 +467,8 @@ Proof.
   split.
   2:{ split; [reflexivity|]. split; [reflexivity|]. split; [reflexivity|]. split; [reflexivity|].
       split; [exact Q1|]. split; [exact Q2|]. split; [exact Q3|]. split; [exact Hc5|].
-      split; [exact Tp|]. split; [lia|].
+      split; [exact Tp|]. split; [lia|]. split.
+      2:{ apply VIgoal; reflexivity. }
       intros Hup. unfold precommitted. cbn [committed pbuf asize]. rewrite Rpb, map_length. fold p'.
       unfold precommitted in Hup. cbn [committed pbuf] in Hup. rewrite Rpb, map_length in Hup. fold p' in Hup.
       rewrite Sa2. unfold n. lia. }
